@@ -47,6 +47,11 @@ let () =
     let n = next_nat t in let bs = next_opt next_nat t in let perm = next_list next_nat t in
     out_opt (out_list (fun (rec_, (r, (ar, ac))) -> out_idx rec_; out_idx r; out_idx ar; out_idx ac))
       (Batch.code_decorated br BatchRules.deco_rules n bs (oracle perm)));
+  (* code_decorated_visible <n> <bs option> <perm> -> option list of (indices visible to _compute_grads, rows of its batch) *)
+  register "c10.code_decorated_visible" (fun t ->
+    let n = next_nat t in let bs = next_opt next_nat t in let perm = next_list next_nat t in
+    out_opt (out_list (fun (v, r) -> out_idx v; out_idx r))
+      (Batch.code_decorated_visible br BatchRules.deco_rules BatchRules.fit_rules n bs (oracle perm)));
   (* code_fit <max_iter> <n> <bs option> <max_iter perms> -> n_iter_, option list of step reads *)
   register "c10.code_fit" (fun t ->
     let mi = next_int t in let n = next_nat t in let bs = next_opt next_nat t in
